@@ -98,6 +98,9 @@ func (vc *VC) heapWF(name, sym, alloc string) string {
 		if et == nil {
 			return "true"
 		}
+		if _, isSlice := under(et).(*types.Slice); !isSlice || strings.HasPrefix(name, "G$tokval$") {
+			return "true"
+		}
 		x := Term{S: "(select " + sym + " r!h)", T: et, Sort: vc.u.SortOf(et)}
 		return "(forall ((r!h Int)) (! (and (>= " + vc.sliceLen(x) + " 0) (<= " + vc.sliceLen(x) + " 9223372036854775807)) :pattern ((select " + sym + " r!h))))"
 	case name == "Chh":
